@@ -155,7 +155,9 @@ func c15handshakes(c *ctx, idx int) {
 			}
 			byPair[pk] = append(byPair[pk], q)
 		}
-		sort.Slice(pairs, func(i, j int) bool { return pairs[i].uid < pairs[j].uid || (pairs[i].uid == pairs[j].uid && pairs[i].sid < pairs[j].sid) })
+		sort.Slice(pairs, func(i, j int) bool {
+			return pairs[i].uid < pairs[j].uid || (pairs[i].uid == pairs[j].uid && pairs[i].sid < pairs[j].sid)
+		})
 		for _, pk := range pairs {
 			rec := rig.panel.ActiveRecord(uidBytes(pk.uid))
 			if rec == nil {
